@@ -436,6 +436,27 @@ def gen_C02(rng, ci, tier):
             s.add("eqstr", SD(a), txt)
             s.add("eqstr", SD(a), codes_to_bytes(ci, other))
         out.append(s.ops)
+    # two windows of the SAME parent (same length, different or equal content, close offsets)
+    for it in range(scale(tier, 60, 1200)):
+        s = Script(ci)
+        n = rng.choice([1, 2, 3, 4, 5, 8, rng.randint(1, 40)])
+        w = rand_codes(rng, ci, n)
+        gap = rng.choice([0, 1, 2, 3, rng.randint(0, 2 * ci.per_word)])
+        same = rng.random() < 0.5
+        w2 = list(w) if same else rand_codes(rng, ci, n)
+        pre = rand_codes(rng, ci, rng.choice([0, 1, 2, ci.per_word - 1, rng.randint(0, ci.per_word)]))
+        parent = pre + w + rand_codes(rng, ci, gap) + w2 + rand_codes(rng, ci, 2)
+        s.add("collect", 0, parent); s.regs.append(parent)
+        a0 = len(pre); b0 = a0 + n + gap
+        d1 = window_sd(0, a0, a0 + n, rng); d2 = window_sd(0, b0, b0 + n, rng)
+        for m in (0, 1, 9):
+            s.add("eq", m, d1, d2)
+        s.add("hasheq", d1, d2)
+        # overlapping windows shifted by one symbol
+        if len(parent) > n + 1:
+            s.add("eq", 0, window_sd(0, a0, a0 + n, rng), window_sd(0, a0 + 1, a0 + 1 + n, rng))
+        s.add("eq", 3, SD(0), SD(0, [(5, 0, 0)]))
+        out.append(s.ops)
     # k-mers against slices / owned / text, every storage type
     for it in range(scale(tier, 90, 1800)):
         s = Script(ci)
